@@ -23,7 +23,7 @@ def inputs_for(tier, rng):
                "---\ntime: -5\n---\n", "---\ntime: 1e10\n---\n", ">> servings: 4294967296", "@a{99999999999999999999/1}",
                "@a{1%" + "9" * 400 + "}", "@a{" + "9" * 400 + "}", "~{1%h}" * 50]
     corpus = [common.unhx(c) for c in common.load_corpus(PID)]
-    return list(dict.fromkeys(corpus + special + ex + rnd + g + bad)), len(ex)
+    return list(dict.fromkeys(corpus + special + ex + pc.fm_placements() + rnd + g + bad)), len(ex)
 
 
 def run(rep, tier, seed):
@@ -38,7 +38,8 @@ def run(rep, tier, seed):
     hits = []
     distinct = set()
     for s, e, c, v in mon:
-        bad = [x for x in v if x.startswith("c03:")]
+        # rendering the report is one of the consumers C03 names: its panic tag is shared with C04
+        bad = [x for x in v if x.startswith("c03:") or x == "c04:render"]
         if bad:
             hits.append((s, "panic in " + ",".join(bad), {"input": s, "input_hex": hx(s), "ext": e, "conv": c,
                                                           "violations": bad}))
